@@ -3,6 +3,7 @@ CONSTANTS
   Part = "sessions"
   MaxLinesA = 1
   MaxLinesB = 1
+  KF_ScanRecheckLeak = FALSE
   KF_FindUnitRelock = TRUE
   MaxOps = 0
   ExportOps = 0
